@@ -585,6 +585,52 @@ pub fn c19(o: &Opts, t: &mut Tracer) {
             ev_write(t, &mut w, kind, &data[..inl], outl, WFlags::default());
         }
     }
+    // progress depends on the (input, room) pair only, not on what the writer emitted before:
+    // large buffers first, then small ones, on the same writer
+    let firsts: Vec<usize> = if o.quick() { vec![21, 22, 64, 300, 1000, 5000, 10246, 20496] } else { (6..400).step_by(7).chain([1000usize, 4101, 4102, 5000, 10246, 10247, 20496, 30000]).collect() };
+    for (j, &first) in firsts.iter().enumerate() {
+        for small in 6..=13usize {
+            let mut w = start_case(t, APIS[(j + small) % 2], kind, false, "history");
+            t.sig(format!("history/{}/{}", first, small));
+            t.class("w:large-then-small");
+            let mut off = 0;
+            for &outl in &[first, small, small, first, small + 1, small, 6] {
+                let (c, ok) = ev_write(t, &mut w, kind, &data[off..(off + 3 * first + 50).min(data.len())], outl, WFlags::default());
+                off += c;
+                if !ok {
+                    break;
+                }
+            }
+        }
+    }
+    // one transport buffer filled by appending: the room shrinks from call to call down to less than a chunk
+    for (j, &cap) in [64usize, 100, 1000, 4200, 10300, 20600].iter().enumerate() {
+        for shave in 0..8usize {
+            let mut w = start_case(t, APIS[(j + shave) % 2], kind, false, "append");
+            t.sig(format!("append/{}/{}", cap, shave));
+            let mut pos = 0;
+            let mut off = 0;
+            let mut first = true;
+            while cap - pos >= 6 {
+                // the first call leaves 6..13 bytes of room behind
+                let inl = if first { cap.saturating_sub(6 + shave + 5 + 3).max(1) } else { data.len() - off };
+                first = false;
+                let (c, ok) = ev_write(t, &mut w, kind, &data[off..off + inl.min(data.len() - off)], cap - pos, WFlags::default());
+                if !ok || c == 0 {
+                    break;
+                }
+                off += c;
+                // produced bytes = chunk framing around c bytes; recompute the room from the event's own numbers
+                pos += c + format!("{:x}", c).len() + 4;
+                if c > 10240 {
+                    pos += (c - 1) / 10240 * 9;
+                }
+                if pos > cap {
+                    break;
+                }
+            }
+        }
+    }
     // whole-body loops with a fixed buffer
     let body = if o.quick() { 6000 } else { 50000 };
     for (j, &outl) in [6usize, 7, 21, 22, 261, 1024, 4103, 10248].iter().enumerate() {
